@@ -22,12 +22,12 @@ var batchMainSrc string
 
 // BatchPkg is one generated package of a batch.
 type BatchPkg struct {
-	Key   string // unique key inside the batch
-	Desc  string
-	Tree  *Iface
-	Src   []byte
-	Pkg   string // Go package name
-	Shim  string // reg_<key>.go source
+	Key  string // unique key inside the batch
+	Desc string
+	Tree *Iface
+	Src  []byte
+	Pkg  string // Go package name
+	Shim string // reg_<key>.go source
 }
 
 // BStep mirrors the driver's step type.
